@@ -603,3 +603,206 @@ func runSeekIndexMaxMeaning(c *Ctx, rule string) {
 		c.Undecided(rule, "lake/data.Writer", "the Min/Max swap was not found ("+sprint(n)+" assignments)")
 	}
 }
+
+// ---- C10-J1: the join's sides are swapped as a unit.
+//
+// For a right join the kernel swaps the two inputs and builds a left join.  The parent puller,
+// the key expression and the declared input direction of a side travel together: join.New sorts
+// a side unless its declared direction says it is already sorted on its key, so a direction that
+// stays behind when the other two are swapped makes the operator trust an unsorted stream.
+func runJoinSidesSwapTogether(c *Ctx, rule string) {
+	p := c.P
+	c.Rule(rule, "at the kernel's call of join.New the parent, key and declared direction passed for one side come from the same side of the dag.Join on every path (for `right` all three are swapped, or none)")
+	var site *ssa.Call
+	var host *ssa.Function
+	for _, fn := range p.FuncsIn("compiler/kernel") {
+		for _, ci := range allCalls(fn) {
+			if call, ok := ci.(*ssa.Call); ok && calleeName(ci.Common()) == "runtime/sam/op/join.New" {
+				site, host = call, fn
+			}
+		}
+	}
+	if site == nil {
+		c.Undecided(rule, "compiler/kernel -> join.New", "call site not found")
+		return
+	}
+	callee := site.Call.StaticCallee()
+	idx := map[string]int{}
+	for i, prm := range callee.Params {
+		idx[prm.Name()] = i
+	}
+	need := []string{"left", "right", "leftKey", "rightKey", "leftDir", "rightDir"}
+	for _, nme := range need {
+		if _, ok := idx[nme]; !ok {
+			c.Undecided(rule, "join.New", "parameter "+nme+" not found (signature changed)")
+			return
+		}
+	}
+	// side of a value on predecessor edge e of block blk (-1: any)
+	var side func(v ssa.Value, blk *ssa.BasicBlock, e int, depth int) string
+	side = func(v ssa.Value, blk *ssa.BasicBlock, e int, depth int) string {
+		if depth > 12 {
+			return "?"
+		}
+		switch x := v.(type) {
+		case *ssa.Phi:
+			if x.Block() == blk && e >= 0 {
+				return side(x.Edges[e], blk, -1, depth+1)
+			}
+			s := ""
+			for _, ev := range x.Edges {
+				t := side(ev, x.Block(), -1, depth+1)
+				if s == "" {
+					s = t
+				} else if s != t {
+					return "?"
+				}
+			}
+			return s
+		case *ssa.UnOp:
+			if x.Op == token.MUL {
+				switch a := x.X.(type) {
+				case *ssa.FieldAddr:
+					if namedOf(a.X.Type()) == "compiler/ast/dag.Join" {
+						f := fieldName(a.X.Type(), a.Field)
+						if strings.HasPrefix(f, "Left") {
+							return "L"
+						}
+						if strings.HasPrefix(f, "Right") {
+							return "R"
+						}
+					}
+				case *ssa.IndexAddr:
+					if k, ok := a.Index.(*ssa.Const); ok {
+						if k.Int64() == 0 {
+							return "L"
+						}
+						if k.Int64() == 1 {
+							return "R"
+						}
+					}
+				}
+			}
+		case *ssa.Extract:
+			if call, ok := x.Tuple.(*ssa.Call); ok && len(call.Call.Args) > 0 {
+				return side(call.Call.Args[len(call.Call.Args)-1], blk, e, depth+1)
+			}
+		case *ssa.Call:
+			if len(x.Call.Args) > 0 {
+				return side(x.Call.Args[len(x.Call.Args)-1], blk, e, depth+1)
+			}
+		case *ssa.ChangeType:
+			return side(x.X, blk, e, depth+1)
+		case *ssa.Convert:
+			return side(x.X, blk, e, depth+1)
+		case *ssa.MakeInterface:
+			return side(x.X, blk, e, depth+1)
+		}
+		return "?"
+	}
+	// the block whose phis merge the per-style assignments
+	var blk *ssa.BasicBlock
+	for _, nme := range need {
+		if phi, ok := site.Call.Args[idx[nme]].(*ssa.Phi); ok {
+			blk = phi.Block()
+		}
+	}
+	edges := []int{-1}
+	if blk != nil {
+		edges = edges[:0]
+		for i := range blk.Preds {
+			edges = append(edges, i)
+		}
+	}
+	bad := ""
+	for _, e := range edges {
+		got := map[string]string{}
+		for _, nme := range need {
+			got[nme] = side(site.Call.Args[idx[nme]], blk, e, 0)
+		}
+		l, r := got["left"], got["right"]
+		okL := l != "?" && got["leftKey"] == l && got["leftDir"] == l
+		okR := r != "?" && got["rightKey"] == r && got["rightDir"] == r
+		if !okL || !okR || l == r {
+			bad = "left=(" + got["left"] + "," + got["leftKey"] + "," + got["leftDir"] + ") right=(" + got["right"] + "," + got["rightKey"] + "," + got["rightDir"] + ")"
+		}
+	}
+	construct := fnName(host) + " -> join.New sides"
+	if bad != "" {
+		c.Fail(rule, construct, site.Pos(), "on some path the parent, key and declared direction of a side do not come from the same side of the dag.Join ["+bad+"; L/R = side of origin]: join.New sorts a side only if its declared direction does not match, so it trusts an unsorted stream as sorted (right joins with asymmetric input order silently lose matches)")
+	} else {
+		c.OK(rule, construct, site.Pos(), "parent, key and direction travel together on every path ("+sprint(len(edges))+" paths)")
+	}
+}
+
+// ---- C10-J2: the optimizer declares a join side sorted only from that side's parent and key.
+func runJoinDirDeclared(c *Ctx, rule string) {
+	p := c.P
+	c.Rule(rule, "the optimizer declares a join input sorted (LeftDir/RightDir) only from the sort key of that side's parent, under a test of that side's join key")
+	fn := p.Func("(*compiler/optimizer.Optimizer).propagateSortKeyOp")
+	if fn == nil {
+		c.Undecided(rule, "propagateSortKeyOp", "anchor does not resolve")
+		return
+	}
+	n := 0
+	for _, b := range fn.Blocks {
+		for _, in := range b.Instrs {
+			st, ok := in.(*ssa.Store)
+			if !ok {
+				continue
+			}
+			fa, ok := st.Addr.(*ssa.FieldAddr)
+			if !ok || namedOf(fa.X.Type()) != "compiler/ast/dag.Join" {
+				continue
+			}
+			f := fieldName(fa.X.Type(), fa.Field)
+			if f != "LeftDir" && f != "RightDir" {
+				continue
+			}
+			n++
+			wantIdx, wantKey, otherKey := int64(0), "LeftKey", "RightKey"
+			if f == "RightDir" {
+				wantIdx, wantKey, otherKey = 1, "RightKey", "LeftKey"
+			}
+			parentIdx := func(i int64) func(ssa.Value) bool {
+				return func(v ssa.Value) bool {
+					ia, ok := v.(*ssa.IndexAddr)
+					if !ok {
+						return false
+					}
+					k, ok := ia.Index.(*ssa.Const)
+					return ok && k.Int64() == i
+				}
+			}
+			keyField := func(name string) func(ssa.Value) bool {
+				return func(v ssa.Value) bool {
+					a, ok := v.(*ssa.FieldAddr)
+					return ok && namedOf(a.X.Type()) == "compiler/ast/dag.Join" && fieldName(a.X.Type(), a.Field) == name
+				}
+			}
+			valOK := dependsOn(st.Val, parentIdx(wantIdx)) && !dependsOn(st.Val, parentIdx(1-wantIdx))
+			guardOK := false
+			for _, gb := range fn.Blocks {
+				if len(gb.Instrs) == 0 {
+					continue
+				}
+				iff, ok := gb.Instrs[len(gb.Instrs)-1].(*ssa.If)
+				if !ok || !gb.Dominates(b) || gb == b {
+					continue
+				}
+				if dependsOnCtl(iff.Cond, keyField(wantKey)) && !dependsOnCtl(iff.Cond, keyField(otherKey)) {
+					guardOK = true
+				}
+			}
+			construct := "propagateSortKeyOp stores dag.Join." + f
+			if valOK && guardOK {
+				c.OK(rule, construct, st.Pos(), "taken from parents["+sprint(int(wantIdx))+"] under a test of "+wantKey)
+			} else {
+				c.Fail(rule, construct, st.Pos(), "the declared direction of this join input is not derived from its own parent's sort key under a test of its own join key: join.New skips the sort of an input it is told is sorted, so a wrong declaration loses matches")
+			}
+		}
+	}
+	if n != 2 {
+		c.Undecided(rule, "propagateSortKeyOp", "expected the two stores LeftDir/RightDir, found "+sprint(n))
+	}
+}
